@@ -188,3 +188,49 @@ def check_extra(ctx, rep):
                         "a normal path through the constructor neither calls the base constructor nor assigns self.tracker: the instance "
                         "keeps the class-level Tracker shared by all devices", line=ci.node.lineno)
     rep.floor("device constructors examined for tracker ownership", n_inst, 6)
+
+    # the tracker records `resources=c.specs["resources"]`: a copy that keeps the original's memoised `_specs` although operations or
+    # measurements were replaced is recorded with the parent circuit's resources (rule shared with C40's R-C40-cache)
+    rep.rule("R-C73-specs", "QuantumScript.copy(**update) carries the memoised `_specs` to the copy only under a guard that excludes an update of "
+             "everything specs depends on")
+    from .c40_extra import cache_part
+
+    if not cache_part(ix, rep, rule="R-C73-specs", slots={"_specs", "specs"}, floor=0):
+        rep.proved("R-C73-specs", "pennylane/core/qscript.py:QuantumScript.copy", "the memoised specs are never carried to a copy", nontrivial=False)
+
+
+def wrap_condition(ctx, rep):
+    """R-C73-inherit: which entry points get a tracking wrapper is decided against the Device base class, not against the class's own dict."""
+    ix = ctx.index
+    rep.rule("R-C73-inherit", "in simulator_tracking the loop that installs the wrappers of the name -> wrapper table wraps an entry point whenever the class's "
+             "resolved attribute differs from Device's (getattr(cls, name) vs getattr(Device, name)); a test on the class's own namespace "
+             "(`name in vars(cls)`, `cls.__dict__`) skips entry points inherited from an intermediate base class, whose calls then go uncounted")
+    st = ix.func(MOD, "simulator_tracking")
+    n = 0
+    for loop in [x for x in walk_shallow(st.node) if isinstance(x, ast.For)]:
+        sets = [c for c in ast.walk(loop) if isinstance(c, ast.Call) and isinstance(c.func, ast.Name) and c.func.id == "setattr"]
+        if not sets:
+            continue
+        tnames = [x.id for x in ast.walk(loop.target) if isinstance(x, ast.Name)]
+        # the (innermost) condition guarding the setattr, written as if-wrap or as `if <not overridden>: continue`
+        conds = [t for t in ast.walk(loop) if isinstance(t, ast.If)]
+        n += 1
+        rep.analysed(MOD, "simulator_tracking")
+        where = f"{MOD}:simulator_tracking wrapper loop"
+        if not conds:
+            rep.proved("R-C73-inherit", where, "every entry point of the table is wrapped unconditionally")
+            continue
+        texts = [norm(t.test) for t in conds] + [norm(v) for v in ast.walk(loop) if isinstance(v, ast.Assign) for v in [v.value]]
+        own_ns = [t for t in texts if "vars(cls)" in t or "cls.__dict__" in t]
+        via_getattr = [t for t in texts if "getattr(cls" in t and "getattr(Device" in t]
+        if own_ns and not via_getattr:
+            node = next(t for t in conds if "vars(cls)" in norm(t.test) or "cls.__dict__" in norm(t.test)) if any(
+                "vars(cls)" in norm(t.test) or "cls.__dict__" in norm(t.test) for t in conds) else conds[0]
+            rep.refuted("R-C73-inherit", MOD, "simulator_tracking", node.test,
+                        f"`{own_ns[0][:70]}` looks only at the decorated class's own namespace: derivative / jvp / vjp entry points that the class inherits from an "
+                        "intermediate (untracked) base class are not wrapped, so their calls update no tracker key", line=node.lineno)
+        elif via_getattr:
+            rep.proved("R-C73-inherit", where, "compares the resolved attribute with Device's")
+        else:
+            rep.unknown("R-C73-inherit", where, "wrap condition not recognised")
+    rep.floor("wrapper-installing loops in simulator_tracking", n, 1)
